@@ -105,8 +105,17 @@ class Module:
         expanded = []
         if not self.rel.endswith(".pyx"):
             from .inline import inline_new_helpers
+            from .tablefold import fold_tables
+            fn, folded = fold_tables(self, qual, fn)
             fn, expanded = inline_new_helpers(self, qual, fn)
-            inlined = bool(expanded)
+            if expanded:
+                fn, folded2 = fold_tables(self, qual, fn)
+                if folded2:
+                    # a helper named by a table row is only visible now
+                    fn, more = inline_new_helpers(self, qual, fn)
+                    expanded = list(expanded) + list(more)
+                    folded = True
+            inlined = bool(expanded) or folded
         if roles is None:
             from .rolespecs import ROLES
             try:
